@@ -17,6 +17,11 @@ def run(ctx):
     progs += amlgen.boundary_trees(rng, ranges, kinds=amlgen.FRAMED if th else ["Package", "Scope", "Method", "If", "Device", "BufferData", "Field", "PowerResource"])
     if th:
         progs += amlgen.boundary_trees(rng, [(1048565, 1048580)], kinds=["Scope", "Package", "Method", "BufferData"], nested=False)
+    # resource templates whose payload crosses the buffer-size integer widths (255/256) and 4095/4096
+    for n in list(range(0, 16)) + [40, 100, 180 if th else 120]:
+        g = amlgen.G(rng)
+        progs.append(amlgen.prog(g, g.template(n), tag="template/%d" % n))
+        progs.append(amlgen.prog(g, {"t": "Name", "path": g.path(), "v": g.template(n)}, tag="named_template/%d" % n))
     ctx.samples = [progs[0], progs[len(progs) // 2], progs[-1]]
     ctx.distinct = ac.distinct(progs)
     ac.mc_corpus(ctx, progs if th else progs[::4], pieces=12)
